@@ -1,5 +1,34 @@
 package p11
 
+// Signatures of the known open findings (vlib.Fail signatures).
+
+// sigCountRefresh: a reconcile that starts from Ready and finds changed workload counts only
+// refreshes them in the status and ends the round; the state stays Ready for one more round
+// although the workload no longer satisfies the batch.
+const sigCountRefresh = "c11-ready-survives-count-refresh"
+
+// sigBGDepRetry: blue-green Deployment Finalize hands an empty object to its wait check when the
+// Deployment was already restored by an earlier attempt, so the second attempt reports Completed
+// whatever the pods look like.
+const sigBGDepRetry = "c11-completed-unfinished-deployment-bluegreen-retry"
+
+// sigBGDepWait: blue-green Deployment Finalize accepts readyReplicas == updatedReplicas plus
+// available within maxUnavailable as "all pods updated and ready"; that also holds while
+// (unready) old-revision pods still exist.
+const sigBGDepWait = "c11-completed-unfinished-deployment-bluegreen"
+
+// sigBGCloneSetWait: blue-green CloneSet Finalize waits only for readyReplicas ==
+// updatedReadyReplicas ("no old pod is ready"), which also holds while updated pods are unready
+// or old pods still exist unready: Completed is reported although not every pod is updated and
+// ready.
+const sigBGCloneSetWait = "c11-completed-unfinished-cloneset-bluegreen"
+
+// sigBGStillControlled: blue-green Finalize returns success without touching the workload when
+// the BatchRelease is deleted while batchPartition is still set ("continuous release is not
+// supported yet"): Completed is reported, the finalizer removed, and the workload keeps the
+// control-info annotation and the blue-green settings.
+const sigBGStillControlled = "c11-completed-still-controlled-bluegreen"
+
 // knownOpen lists confirmed genuine defects (finding signatures) that are still open in /repo.
 // While an entry is true the generator / oracles steer away from exactly that finding's input
 // class (counted with vlib.Excluded) so that the search continues behind it. Switch an entry
@@ -9,6 +38,5 @@ var knownOpen = map[string]bool{
 	sigBGDepRetry:        true,
 	sigBGCloneSetWait:    true,
 	sigBGDepWait:         true,
-	sigDepPartBack:       true,
 	sigBGStillControlled: true,
 }
